@@ -721,6 +721,7 @@ class ExcelCompiler:
             addr = to_verify.pop()
             if len(to_verify) % 100 == 0:
                 print(f"{len(to_verify)} formulas left to process")
+            original_value = None
             try:
                 self._gen_graph(addr)
                 cell = self.cell_map[addr.address]
@@ -756,6 +757,12 @@ class ExcelCompiler:
                 if raise_exceptions:
                     raise
                 cell = self.cell_map.get(addr.address, None)
+                if cell is not None and original_value is not None and (
+                        cell.value is None):
+                    # could not be calculated, it keeps the value it had: the
+                    # cells which were calculated from that value still have
+                    # theirs, and set_value() resets them only through it
+                    cell.value = original_value
                 formula = cell and cell.formula.base_formula
                 exc_str = str(exc)
                 exc_str_split = exc_str.split('\n')
